@@ -1562,12 +1562,31 @@ def sink_flag_tails(tree, ref, ref_locals):
             for block in _blocks(fn):
                 for i, st in enumerate(block):
                     rest = block[i + 1:]
-                    if not (isinstance(st, ast.If) and st.orelse and rest and isinstance(rest[0], ast.If)):
+                    if not (isinstance(st, ast.If) and st.orelse and rest):
                         continue
-                    names = {n.id for n in ast.walk(rest[0].test) if isinstance(n, ast.Name)}
-                    if not names or any(n in want or n in params for n in names) or \
-                            any(isinstance(n, (ast.Call, ast.Attribute, ast.Subscript)) for n in ast.walk(rest[0].test)):
-                        continue
+                    st.body[:] = _untuple(st.body)             # `a, b = x, y` in a branch binds a and b
+                    st.orelse[:] = _untuple(st.orelse)
+                    flag_test = isinstance(rest[0], ast.If) and not any(isinstance(n, (ast.Call, ast.Attribute, ast.Subscript)) for n in ast.walk(rest[0].test)) and \
+                        any(isinstance(n, ast.Name) for n in ast.walk(rest[0].test)) and \
+                        not any(n.id in want or n.id in params for n in ast.walk(rest[0].test) if isinstance(n, ast.Name))
+                    if flag_test:
+                        names = {n.id for n in ast.walk(rest[0].test) if isinstance(n, ast.Name)}
+                    else:
+                        # values chosen per case and used by the statements that follow: the new locals every (complete) branch binds
+                        def sets0(stmts):
+                            return {s_.targets[0].id for s_ in stmts if isinstance(s_, ast.Assign) and len(s_.targets) == 1 and isinstance(s_.targets[0], ast.Name)}
+                        if not (len(st.body) >= 1 and len(st.orelse) >= 1):
+                            continue
+                        common = (sets0(st.body) & sets0(st.orelse)) - set(want) - params
+                        names = {n_ for n_ in common if _reads(rest, n_)}
+                        if not names:
+                            continue
+                        # only the statements up to the last one that reads them follow the branches
+                        last_use = max(k_ for k_, x_ in enumerate(rest) if any(_reads([x_], n_) for n_ in names))
+                        later = rest[last_use + 1:]
+                        if any(_reads(later, n_) for n_ in names):
+                            continue
+                        rest = rest[:last_use + 1]
                     # worth doing only where the reference writes out per case what is written once here: some call of the statements
                     # after the chain has more sites in the reference function than in this one
                     ref_calls = (ref.get('calls') or {}).get(q, {})
@@ -1605,7 +1624,7 @@ def sink_flag_tails(tree, ref, ref_locals):
                                    for v in env.values()):
                             return False
                         return _const_truth(_Subst(env).visit(copy.deepcopy(rest[0].test))) is not None
-                    if not merged and not all(decided_in(l) for l in going):
+                    if not merged and not (flag_test and all(decided_in(l) for l in going)):
                         continue
                     plan = set.intersection(*[sets(l) for l in going]) - set(want) - params
                     # the plan names live only between their binding in a leaf and the statements after the chain
@@ -1626,7 +1645,7 @@ def sink_flag_tails(tree, ref, ref_locals):
                                 env_[s_.targets[0].id] = s_.value
                         if all(isinstance(v, ast.Constant) or (isinstance(v, (ast.Tuple, ast.List)) and all(isinstance(e_, (ast.Name, ast.Constant)) for e_ in v.elts))
                                for v in env_.values()) and set(env_) == names:
-                            tv = _const_truth(_Subst(env_).visit(copy.deepcopy(tail[0].test)))
+                            tv = _const_truth(_Subst(env_).visit(copy.deepcopy(tail[0].test))) if flag_test else None
                             if tv is not None:
                                 tail[0:1] = copy.deepcopy(tail[0].body if tv else tail[0].orelse)
                                 for j, s2 in enumerate(tail):
@@ -1645,7 +1664,7 @@ def sink_flag_tails(tree, ref, ref_locals):
                                     if isinstance(x, ast.Name) and x.id == n_:
                                         x.id = new
                         leaf.extend(tail)
-                    del block[i + 1:]
+                    del block[i + 1:i + 1 + len(rest)]
                     changed = True
                     total += 1
                     break
@@ -3847,7 +3866,7 @@ def normalise(tree, path, ref_locals, model=None):
                      ('methods', lambda: rename_methods(tree, ref)), ('formats', lambda: restyle_formats(tree, ref)), ('closures', lambda: restore_closures(tree, ref) + restore_closures_from_objects(tree, ref)), ('self', lambda: restore_self(tree, ref)), ('tuples', lambda: split_tuple_bindings(tree, ref)), ('suppress', lambda: expand_suppress(tree, ref)), ('constants', lambda: _constants(tree, ref)),
                      ('observability', lambda: drop_observability(tree, ref)), ('params', lambda: default_new_params(tree, ref) + default_new_params(tree, ref)), ('initliterals', lambda: inline_init_literals(tree, ref)),
                      ('structs', lambda: inline_struct_objects(tree, ref)),
-                     ('anytests', lambda: lower_any_tests(tree, ref)), ('loops', lambda: reshape_loops(tree, ref, ref_locals)), ('helpers', lambda: inline_helpers(tree, ref)), ('namedtuples2', lambda: dissolve_namedtuples(tree, ref, path, model)), ('records', lambda: scalarise_records(tree, ref)), ('tuplevars', lambda: scalarise_tuple_locals(tree, ref, ref_locals)), ('flagtails', lambda: sink_flag_tails(tree, ref, ref_locals)), ('decided', lambda: fold_decided_branches(tree, ref)), ('trivia', lambda: drop_trivia(tree, ref)), ('ifexps', lambda: expand_ifexps(tree, ref)), ('boolreturns', lambda: expand_bool_returns(tree, ref)),
+                     ('anytests', lambda: lower_any_tests(tree, ref)), ('loops', lambda: reshape_loops(tree, ref, ref_locals)), ('helpers', lambda: inline_helpers(tree, ref)), ('namedtuples2', lambda: dissolve_namedtuples(tree, ref, path, model)), ('records', lambda: scalarise_records(tree, ref)), ('tuplevars', lambda: scalarise_tuple_locals(tree, ref, ref_locals)), ('ifexps0', lambda: expand_ifexps(tree, ref)), ('flagtails', lambda: sink_flag_tails(tree, ref, ref_locals)), ('decided', lambda: fold_decided_branches(tree, ref)), ('trivia', lambda: drop_trivia(tree, ref)), ('ifexps', lambda: expand_ifexps(tree, ref)), ('boolreturns', lambda: expand_bool_returns(tree, ref)),
                      ('unrolled', lambda: unroll_loops(tree, ref)),
                      ('comprehensions', lambda: expand_comprehensions(tree, ref) + collapse_append_loops(tree, ref)), ('ifexps2', lambda: expand_ifexps(tree, ref)),
                      ('ranges', lambda: split_live_ranges(tree, ref_locals or {})), ('temps', lambda: inline_temps(tree, path, ref_locals or {})),
